@@ -202,6 +202,31 @@ func RunC20(c *mc.Ctx) {
 		})
 	}
 
+	// ---- bloom: a LONG item (300 bytes) inserted / queried against every 1-2 op program over a 7-op
+	// sub-alphabet, both geometries
+	{
+		pl := [][]string{{"Add:L"}, {"Matches:L"}, {"Add:L", "Matches:L"}, {"Reload", "Add:L"}, {"Add:L", "Add:x"}, {"Unload", "Add:L"}}
+		po := programs([]string{"Reload", "Unload", "Add:x", "Matches:x", "AddOutPoint", "MatchTx", "Msg", "Add:L", "Matches:L"}, 2)
+		var cl []*BloomConfig
+		for _, g := range geoms {
+			for _, a := range pl {
+				for _, b := range po {
+					if c.Quick() && len(a) == 2 && len(b) == 2 {
+						continue
+					}
+					cl = append(cl, &BloomConfig{Geom: g, Progs: [][]string{a, b}})
+				}
+			}
+		}
+		if onlyBig {
+			cl = nil
+		}
+		c.Space("bloom: programs with a 300-byte item against programs over a 9-op sub-alphabet x 2 geometries", int64(len(cl)))
+		c.ParFor(int64(len(cl)), func(w *mc.W, i int64) {
+			exploreCase(c, w, c20Case{Kind: "bloom", Bloom: cl[i], Bound: bound2}, 200000)
+		})
+	}
+
 	// ---- bloom: a filter with EIGHT hash functions and 20..40-byte items (every item of the alphabet
 	// except "y"): all unordered pairs of 1-2 op programs over a 6-op sub-alphabet
 	{
